@@ -141,6 +141,21 @@ def exec_c10(cfg, devs):
                 if ex.env.links and not ex.env.links[-1].closed:
                     ex.env.links[-1].inject(simcf.SimCF.hdr(PORT, CHAN), bytes(cfg['inject']))
             s.spawn(None, inj, name='env-inject')
+        if cfg.get('reopen_in_cb'):
+            # an application that reconnects from inside its disconnected callback and sends its first request there
+            again = []
+
+            def on_disc(uri):
+                if not again:
+                    again.append(1)
+                    ex.log('closed', 0)
+                    if 'resend2' in cfg:
+                        ex.env.needs_resending = cfg['resend2']
+                    ex.log('open', 1)
+                    cf.open_link('sim://0')
+                    for name in cfg.get('reqs2', ()):
+                        issue(name)
+            cf.disconnected.add_callback(on_disc)
         if cfg.get('close_at') is not None:
             s.lazy_point('user.close', timeout=cfg['close_at'])
             ex.log('close', 0)
@@ -149,9 +164,13 @@ def exec_c10(cfg, devs):
                 ex.env.links[-1].fail_from_driver_thread()
             else:
                 cf.close_link()
-            ex.log('closed', 0)
+            if not cfg.get('reopen_in_cb'):
+                ex.log('closed', 0)
             if cfg.get('reopen_after') is not None:
                 s.lazy_point('user.reopen', timeout=cfg['reopen_after'])
+                if 'resend2' in cfg:
+                    # the next session runs over a link of the other kind (e.g. USB after radio)
+                    ex.env.needs_resending = cfg['resend2']
                 ex.log('open', 1)
                 cf.open_link('sim://0')
                 for name in cfg.get('reqs2', ()):
@@ -184,8 +203,12 @@ def _judge(p, cfg, devs, ex, info):
     txs = [(e[0],) + e[2:] for e in ev if e[1] == 'tx' and e[3] == HDR]        # (t, link, hdr, data, status, thread)
     short = [(round(t, 3), l, d, st) for (t, l, h, d, st, th) in txs]
 
+    def resend_of(link):
+        return cfg.get('resend2', cfg['resend']) if link else cfg['resend']
+
     def viol(clause, what):
-        p.violation('retry:%s|%s' % (clause, 'resend' if cfg['resend'] else 'reliable'),
+        p.violation('retry:%s|%s' % (clause, ('resend' if cfg['resend'] else 'reliable') + (
+            '>resend' if cfg.get('resend2') is True else '>reliable' if cfg.get('resend2') is False else '')),
                     '%s devs=%r [%s]: %s; transmissions (t, link, data, status): %r' % (cname, devs, fclass, what, short[:16]), rp)
 
     p.case(key=(cname, tuple(devs)), nontrivial=bool(devs), outcome=(s.status, tuple(short)),
@@ -295,7 +318,7 @@ def _judge(p, cfg, devs, ex, info):
             key = (name, link)
             ntx[key] = ntx.get(key, 0) + 1
             if ntx[key] == 1:
-                if cfg['resend']:
+                if resend_of(link):
                     # its pattern was registered somewhere between the entry into the send section and this transmission:
                     # a matching packet whose matching overlaps that span may or may not have found it
                     began = last_lockacq.get(th, -1)
@@ -313,7 +336,7 @@ def _judge(p, cfg, devs, ex, info):
             if key in maybe:
                 continue
             # a retransmission
-            if not cfg['resend']:
+            if not resend_of(link):
                 viol('retransmission_on_reliable_link', 'request %r transmitted %d times' % (name, ntx[key]))
                 continue
             if key in answered_at:
@@ -336,9 +359,9 @@ def _judge(p, cfg, devs, ex, info):
         name = [n for n, (dd, _e) in REQS.items() if tuple(dd) == tuple(data)]
         if name and (name[0], link) in issued:
             tx_times.setdefault((name[0], link), []).append(t)
-    if cfg['resend']:
+    if cfg['resend'] or cfg.get('resend2'):
         for (name, link), times in tx_times.items():
-            if (name, link) in maybe:
+            if (name, link) in maybe or not resend_of(link):
                 continue
             # end of obligation: answer processed, link closed, or horizon
             end_t = _horizon(cfg)
@@ -370,7 +393,7 @@ def _judge(p, cfg, devs, ex, info):
                 viol('retransmitted_after_close', 'request %r retransmitted at %r after its link was closed at %.3f' % (
                     name, late[:4], end_t))
     # ---- leftovers ----------------------------------------------------------------------------------
-    if cfg.get('close_at') is not None and cfg.get('reopen_after') is None and info.get('live_timers'):
+    if cfg.get('close_at') is not None and cfg.get('reopen_after') is None and not cfg.get('reopen_in_cb') and info.get('live_timers'):
         viol('live_timer_after_close', 'retry timers still armed at the horizon after close_link: %r' % (info['live_timers'][:3],))
 
 
@@ -416,6 +439,14 @@ def configs(quick):
         # a request still unanswered when its session ends (closed or lost before the first retry) and, in the next session,
         # a request whose reply begins with the old one's longer pattern / a longer pattern whose reply the old shorter one
         # would match / all three prefix-sharing patterns after an unanswered one
+        # the next session runs over a link of the other kind (reliable after lossy and the reverse), after a close and
+        # after a link error; the application reconnects and sends from inside its disconnected callback
+        _cfg('reopen:lossy>reliable', 'a', close_at=0.3, reopen_after=0.05, reqs2='d', resend2=False),
+        _cfg('reopen:reliable>lossy', 'a', resend=False, close_at=0.3, reopen_after=0.05, reqs2='d', resend2=True),
+        _cfg('error-reopen:lossy>reliable', 'a', close_at=0.3, reopen_after=0.05, reqs2='d', resend2=False, by_error=True),
+        _cfg('error-reopen:reliable>lossy', 'a', resend=False, close_at=0.3, reopen_after=0.05, reqs2='d', resend2=True, by_error=True),
+        _cfg('reopen-in-callback', 'a', close_at=0.3, reopen_in_cb=True, reqs2='d'),
+        _cfg('reopen-in-callback:same-pattern', 'a', close_at=0.3, reopen_in_cb=True, reqs2='e'),
         _cfg('reopen:stale-longer', 'b', close_at=0.1, reopen_after=0.05, reqs2='f'),
         _cfg('error-reopen:stale-longer', 'b', close_at=0.1, reopen_after=0.05, reqs2='f', by_error=True),
         _cfg('reopen:stale-shorter', 'a', close_at=0.1, reopen_after=0.05, reqs2='b'),
